@@ -56,6 +56,11 @@ CLAIMS = {
    note="Trusted: Coq kernel, extraction, hand model of coercion.rs (floats outside the model, observed only), better_default / serde(default) / bon semantics exercised in the arena rather than modelled. The theorems are case analyses over the coercion table; the agreement of the three ways is an observation of the arena (exhaustive over the lattice), not a theorem.",
    technique="Coq proof (case analysis over the coercion table, all strings/integers) with exhaustive syn + compiled-code (arena) correspondence",
    design="§4 C17", engine="coq+cli+arena"),
+ "C11": dict(
+   text="PARTIAL. Coq theorems (closed under the global context): the parse step erases key order — building the key-sorted map (BTreeMap) from ANY permutation of an object's members gives the same map, for every object at every level (C11_btree_perm, via commutation of insertion on sorted lists and transitivity/totality of byte-lexicographic order, both proved); iteration is in sorted key order (C11_btree_sorted); the one hash-set enumeration that reaches generator state is order-irrelevant (C11_marking_order_irrelevant). A syntactic inventory of every iteration over a HashMap/HashSet in non-test source is regenerated on each run and must equal the reviewed list. Search/tie: separate `generate` processes on the same file, random key permutations at every object level, and YAML re-encodings, for fixtures + feature-grammar specs x 4 modes, compared byte-for-byte (Source line masked).",
+   note="Trusted: Coq kernel, the inventory tool (syntactic: typed bindings/fields/itertools adaptors), python json/yaml. Not modelled: clock, environment, terminal width, real hash seeds — covered only by repeated-process runs; that each generator step is a function of the parsed document is Rust's semantics, not a theorem.",
+   technique="Coq proof (permutation invariance of sorted-map construction; strict total order on byte strings) + regenerated inventory obligation + CLI byte-comparison of re-serialised specs",
+   design="§4 C11", engine="coq+inventory+cli"),
 }
 
 checks = []
